@@ -88,9 +88,10 @@ def drive(ctx, fam, gname, f, st, seed, vstep, real_timeout, ncalls):
         later = kinds[first_term + 1:]
         if any(k != term for k in later):
             key = None
-            if term == "timeout" and st.get("activate_unsat_support") and all(k == "stop" for k in later):
+            if term == "timeout" and st.get("activate_unsat_support") and (all(k == "stop" for k in later) or (vstep is None and real_timeout is None)):
                 # the 2-second timeout of the nested unsat check (process_new_state) escapes as the user's TimeoutError; the
-                # queue copy restored afterwards no longer holds the popped state, so the next call finds it empty
+                # queue copy restored afterwards no longer holds the popped state, so the next call finds it empty. When no
+                # timeout was configured at all, a TimeoutError can only be that nested check's, whatever follows it
                 key = "C02:unsat-support:nested-check-timeout-escapes-then-StopIteration"
             ctx.violation(key, f"after the first {term} (call #{first_term + 1}) later calls gave {later}", wit)
             bad = True
